@@ -149,6 +149,20 @@ def Genuine (o : ObjCfg) (s : Sym) : Prop :=
 def Fits (rc : RxCfg) (o : ObjCfg) : Prop :=
   o.ks.size ≤ rc.maxLook ∧ ∀ got sbn, allocBytes o.blen got + o.blen.getD sbn 0 ≤ rc.maxSize
 
+theorem foldl_zero (l : List Nat) : (l.map (fun _ => 0)).foldl (· + ·) 0 = 0 := by
+  induction l with
+  | nil => rfl
+  | cons x xs ih => simpa using ih
+
+/-- an object whose blocks the receiver accounts as 0 bytes (or: no per-block accounting) fits any cache -/
+theorem fits_of_noacct (rc : RxCfg) (o : ObjCfg) (h1 : o.ks.size ≤ rc.maxLook) (h2 : o.blen = #[]) : Fits rc o := by
+  refine ⟨h1, ?_⟩
+  intro got sbn
+  unfold allocBytes
+  rw [h2]
+  simp only [Array.getD_eq_getD_getElem?, List.getElem?_toArray, List.getElem?_nil, Option.getD_none]
+  rw [foldl_zero]; omega
+
 theorem settle_flags (o : ObjCfg) (rx : ORx) :
     (settle c.canDecode o rx).rx.attached = rx.attached ∧
     (settle c.canDecode o rx).rx.otiKnown = rx.otiKnown ∧
